@@ -18,6 +18,7 @@ import (
 	"encoding/pem"
 	"fmt"
 	"os"
+	"path"
 	"sort"
 	"strconv"
 	"strings"
@@ -212,7 +213,12 @@ func judgeStoreFresh(h *history, objects map[string][]byte) (*verdict, stateInfo
 	if info.listable {
 		for _, e := range man.GetEntries() {
 			info.listed[e.GetKeyVersionName()] = e.GetObjectPath()
+			// The object is looked up the way the storage client names it: the local-disk client
+			// resolves "./x" and "x" to the same file, and the real content is keyed by clean paths.
 			raw, ok := objects[e.GetObjectPath()]
+			if !ok && h.Store == "local" {
+				raw, ok = objects[path.Clean(e.GetObjectPath())]
+			}
 			if !ok {
 				return bad("C11/manifest-entry-without-object", "manifest lists key version %q -> object %q, which is not in the bucket", e.GetKeyVersionName(), e.GetObjectPath())
 			}
@@ -314,8 +320,22 @@ func judgeAhead(h *history, pre map[string][]byte, ws []rotsim.Write) *verdict {
 			continue // not the documented format (or broken): the state clauses decide
 		}
 		have := rotsim.Apply(pre, ws[:i])
+		if h.Store == "local" {
+			// the local-disk client resolves "./x" and "x" to the same file
+			clean := make(map[string][]byte, len(have))
+			for k, v := range have {
+				clean[path.Clean(k)] = v
+			}
+			for k, v := range clean {
+				have[k] = v
+			}
+		}
 		for _, e := range man.GetEntries() {
-			if _, ok := have[e.GetObjectPath()]; !ok {
+			_, ok := have[e.GetObjectPath()]
+			if !ok && h.Store == "local" {
+				_, ok = have[path.Clean(e.GetObjectPath())]
+			}
+			if !ok {
 				return &verdict{Key: "C11/manifest-written-ahead-of-certificate", Msg: fmt.Sprintf("write %d of %d is a manifest listing key version %q -> object %q, which is not stored at that point; log %s", i+1, len(ws), e.GetKeyVersionName(), e.GetObjectPath(), logString(h, ws))}
 			}
 		}
@@ -750,10 +770,12 @@ func histories() []*history {
 		// --keep_going on every command: default rotation, then a colliding override that keeps the
 		// existing object
 		add("memkm", "mock", "certs", "", true, 2, kgChoices[0], kgChoices[1])
+		flatLayouts(add, def, []string{"mock", "local"})
 		return hs
 	}
 	// thorough: r <= 3, every sequence of rotation flag variations, both storage clients,
 	// certificate directory spelled three ways, both key managers
+	flatLayouts(add, def, []string{"mock", "local", "both"})
 	for _, store := range []string{"mock", "local"} {
 		for _, certDir := range []string{"certs", "signer_certs/", ""} {
 			for a := range rotChoices {
@@ -788,6 +810,33 @@ func histories() []*history {
 	return hs
 }
 
+// flatLayouts adds the unusual but legal bucket layouts of a FIRST bootstrap: a flat certificate
+// directory (cert_dir "" on the in-memory client, "./" - the layout of testing/devkeys/regen.sh - on
+// the local-disk client, which resolves it to the bucket directory) with --root_path naming the
+// root's own DER object "<root cn>-<root serial>.crt": the DER upload of the same Finalize occupies
+// the root path, the PEM root write finds it existing and, without --overwrite, the bootstrap must
+// be refused BEFORE any manifest write (a refused operation is fine: every prefix is judged, the
+// rotation that follows is refused too). Neighbours that succeed: the flat directory with the normal
+// root path, and a root path inside the certificate directory. which: "mock"/"local" pick the
+// client of the colliding layout, "both" adds the crossed pairings (thorough).
+func flatLayouts(add func(km, store, certDir, rootPath string, kgBoot bool, faults int, choices ...rotChoice), def rotChoice, which []string) {
+	ownDER := fmt.Sprintf("%s-%d.crt", rotsim.DefaultBootstrap.RootCN, rotsim.DefaultBootstrap.RootSerial)
+	for _, w := range which {
+		switch w {
+		case "mock":
+			add("memkm", "mock", "", ownDER, false, 0, def)
+			add("memkm", "mock", "", "", false, 0, def)
+		case "local":
+			add("memkm", "local", "./", ownDER, false, 0, def)
+			add("memkm", "local", "certs", "certs/root.crt", false, 0, def)
+		case "both":
+			add("localkm", "local", "", ownDER, false, 0, def)
+			add("memkm", "local", "./", "", false, 0, def, def)
+			add("memkm", "mock", "certs", "certs/root.crt", false, 0, def, def)
+		}
+	}
+}
+
 func shardInfo() (int, int) {
 	n, _ := strconv.Atoi(os.Getenv("VERIF_NSHARDS"))
 	i, _ := strconv.Atoi(os.Getenv("VERIF_SHARD"))
@@ -797,15 +846,24 @@ func shardInfo() (int, int) {
 	return i, n
 }
 
-const ruleHistories = "histories bootstrap(empty store); rotate^r run with rotate.Bootstrap / rotate.Key, memkm|localkm + nonprod signer + gcsca over the package's recording storagei.Client (wrapping testing/storage.Mock or storage/local on a temp dir), one fresh set of components per operation like successive command invocations. quick: r=2 (its prefixes are r=0,1): default flags on both storage clients; localkm/mock with another common name and a colliding serial override with --overwrite (replaces a listed non-primary object); memkm/local with a colliding override with --overwrite that replaces the CURRENT primary's object, then an explicit fresh serial; localkm/local with a refused colliding override; one history with --keep_going on every command (default rotation, then a colliding override that keeps the existing object). thorough: r=3, EVERY sequence over rotation flag variations {default-next serial, other common name, explicit serial override, override colliding with an existing certificate object with --overwrite, same without --overwrite (refused)}, cert_dir in {certs, signer_certs/, empty}, both storage clients, localkm histories with another root_path, and EVERY sequence over {default+keep_going, colliding+keep_going, colliding+overwrite+keep_going, default} after a bootstrap with and without --keep_going. "
+const ruleHistories = "histories bootstrap(empty store); rotate^r run with rotate.Bootstrap / rotate.Key, memkm|localkm + nonprod signer + gcsca over the package's recording storagei.Client (wrapping testing/storage.Mock or storage/local on a temp dir), one fresh set of components per operation like successive command invocations. quick: r=2 (its prefixes are r=0,1): default flags on both storage clients; localkm/mock with another common name and a colliding serial override with --overwrite (replaces a listed non-primary object); memkm/local with a colliding override with --overwrite that replaces the CURRENT primary's object, then an explicit fresh serial; localkm/local with a refused colliding override; one history with --keep_going on every command (default rotation, then a colliding override that keeps the existing object); first bootstraps into unusual layouts: flat certificate directory (cert_dir \"\" on the in-memory client, \"./\" on the local-disk client) with --root_path naming the root's own DER object <root cn>-<serial>.crt (the DER upload occupies the root path; the bootstrap must be refused before any manifest write, the following rotation too), flat directory with the normal root path, root path inside the certificate directory. thorough: the same layouts with crossed clients, r=3, EVERY sequence over rotation flag variations {default-next serial, other common name, explicit serial override, override colliding with an existing certificate object with --overwrite, same without --overwrite (refused)}, cert_dir in {certs, signer_certs/, empty}, both storage clients, localkm histories with another root_path, and EVERY sequence over {default+keep_going, colliding+keep_going, colliding+overwrite+keep_going, default} after a bootstrap with and without --keep_going. "
 
 const ruleCommon = "For each operation: log W of completed object writes and the REAL content of the base store after each of them (files of the local-disk client's directory / cells of the in-memory client); the next operation starts from the real content. Completion orders: every permutation inside every CONTIGUOUS run of certificate uploads (Finalize ranges over a Go map), root and manifest writes keep their observed positions; x EVERY prefix W[:k]; store = content before the operation + prefix (the observed order uses the real content). Oracle on a FRESH gcsca.CertificateAuthority over a fresh storage client holding exactly that content: (a) the authority reads its manifest; (b) every manifest entry's object exists, x509.ParseCertificate accepts it and Certificate(keyVersion) succeeds (entries enumerated by an independent text-proto reader; if that reader disagrees with the authority the clause is inconclusive); if a primary signing key is recorded: (c) it has a certificate, the root PEM at root_path parses and its key verifies the primary's certificate signature, (d) the repository's real start-up check localca.T.InitContext accepts a local-disk store holding that content; (e) ordering clause on the observed log as the statement words it: when a manifest write completes, the objects of all its entries and, if it records a primary signing key, the root certificate object are stored (writes after the manifest and several manifest writes are allowed). non-trivial = proper prefix 0<k<|W| whose state has manifest entries (clauses b-d judge something); distinct = (history, operation, upload order, k, object names)"
 
 // noteOutcome records unexpected but legal behaviour of a fault-free operation instead of failing.
-func noteOutcome(name string, h *history, j int, r opResult) {
-	o := h.Ops[j]
-	refusable := o.Kind == "rotate" && !o.Overwrite && !o.KeepGoing && o.Rot.Serial != 0
-	if r.err != nil && !(refusable && strings.Contains(r.err.Error(), "exists")) {
+func noteOutcome(name string, h *history, j int, res []opResult) {
+	o, r := h.Ops[j], res[j]
+	// refusals that the flags make legal: an object is in the way and neither --overwrite nor
+	// --keep_going is given; a rotation of a store that was never bootstrapped
+	refusable := !o.Overwrite && !o.KeepGoing && r.err != nil && strings.Contains(r.err.Error(), "exists")
+	if o.Kind == "rotate" && j > 0 {
+		for _, p := range res[:j] {
+			if p.err != nil {
+				refusable = true // an earlier operation of the history was refused
+			}
+		}
+	}
+	if r.err != nil && !refusable {
 		ev.Class(name, "inconclusive: fault-free "+o.Kind+" failed")
 		ev.Note("C11 %s: fault-free operation %d (%s) of %s failed: %v", name, j, o.Tag, h, r.err)
 	}
@@ -834,8 +892,8 @@ func TestCrashPrefixes(t *testing.T) {
 			}
 			return
 		}
-		for j, r := range res {
-			noteOutcome(name, h, j, r)
+		for j := range res {
+			noteOutcome(name, h, j, res)
 		}
 	}
 	ev.Exhaustive(name)
